@@ -52,6 +52,29 @@ site: http://bugseng.com/products/ppl/ . */
 #endif
 
 
+#ifdef BUGSENG_PPL_VERIF
+// Verification hook H2: let a test harness know that the condition of an
+// assertion is being evaluated (code that does not exist in NDEBUG builds).
+namespace Parma_Polyhedra_Library {
+struct Verif_In_Assert {
+  static unsigned int& count() {
+    static unsigned int c = 0;
+    return c;
+  }
+  Verif_In_Assert() {
+    ++count();
+  }
+  ~Verif_In_Assert() {
+    --count();
+  }
+};
+} // namespace Parma_Polyhedra_Library
+#define PPL_VERIF_IN_ASSERT_GUARD_ \
+  Parma_Polyhedra_Library::Verif_In_Assert verif_in_assert_guard__;
+#else
+#define PPL_VERIF_IN_ASSERT_GUARD_
+#endif
+
 // Non zero to detect use of PPL_ASSERT instead of PPL_ASSERT_HEAVY
 // Note: flag does not affect code built with NDEBUG defined.
 #define PPL_DEBUG_PPL_ASSERT 1
@@ -66,6 +89,7 @@ site: http://bugseng.com/products/ppl/ . */
 // (i.e., if the former may interfere with computational weights).
 #define PPL_ASSERT(cond__)                                        \
   do {                                                            \
+    PPL_VERIF_IN_ASSERT_GUARD_                                    \
     typedef Parma_Polyhedra_Library::Weightwatch_Traits W_Traits; \
     W_Traits::Threshold old_weight__ = W_Traits::weight;          \
     PPL_ASSERT_IMPL_(cond__);                                     \
@@ -82,6 +106,7 @@ site: http://bugseng.com/products/ppl/ . */
 #else
 #define PPL_ASSERT_HEAVY(cond__)                                \
   do {                                                          \
+    PPL_VERIF_IN_ASSERT_GUARD_                                  \
     Parma_Polyhedra_Library::In_Assert guard;                   \
     PPL_ASSERT_IMPL_(cond__);                                   \
   } while (false)
